@@ -8,7 +8,7 @@
    `wf` is the splitter's post-condition: the two space parts are blank, an empty value
    has no space after it. *)
 From PV Require Import Lib.Bytes Model.Tabs Model.Varalign Model.LayoutFix
-  Proofs.Tabs Proofs.VaralignBlanks Proofs.VaralignFile Proofs.VaralignSingle Proofs.LayoutFix Proofs.C15Final.
+  Proofs.Tabs Proofs.VaralignBlanks Proofs.VaralignFile Proofs.VaralignSingle Proofs.LayoutFix Proofs.C15Final Proofs.C15Blank Proofs.C15Margin Proofs.C15Total.
 Open Scope Z_scope.
 
 (* ===== width arithmetic ===== *)
@@ -58,6 +58,32 @@ Theorem C15_alignWith_reaches : forall s other,
   exists a, alignWith s other = Some (s ++ a) /\ tab_width (s ++ a) = tab_width other /\ blankb a = true.
 Proof. exact alignWith_reaches. Qed.
 Print Assumptions C15_alignWith_reaches.
+
+(* ===== "blank" is byte-exact ===== *)
+
+(* In every statement below, "blank" (blankb, strip_blanks, blanks_only, blank_eq, trimmed_of, wf)
+   means the two bytes 32 (space) and 9 (tab) ONLY: not \f \v \r, not U+00A0 / U+0085 / U+2028 in
+   any encoding, not a lone 0x85 / 0xA0 byte. *)
+Theorem C15_blank_is_space_or_tab : forall s,
+  blankb s = true <-> Forall (fun c => c = 32 \/ c = 9)%N s.
+Proof. exact blankb_iff. Qed.
+Print Assumptions C15_blank_is_space_or_tab.
+
+Theorem C15_strip_blanks_is_space_and_tab : forall s,
+  strip_blanks s = filter (fun c => negb ((c =? 32) || (c =? 9))%N) s.
+Proof. exact strip_blanks_spec. Qed.
+Print Assumptions C15_strip_blanks_is_space_and_tab.
+
+(* a logical line whose last raw line ends in any byte other than space and tab is not touched by
+   CheckTrailingWhitespace (in particular "...\r", "...\f", "...\xc2\xa0") *)
+Theorem C15_trailing_nonblank_end_untouched : forall raws t c,
+  last raws [] = t ++ [c] -> c <> 32%N -> c <> 9%N -> checkTrailingWhitespace raws = Ok raws.
+Proof. exact trailing_nonblank_end_untouched. Qed.
+Print Assumptions C15_trailing_nonblank_end_untouched.
+
+Example C15_witness_crlf : checkTrailingWhitespace [[86; 61; 9; 118; 32; 13]%N] = Ok [[86; 61; 9; 118; 32; 13]%N]
+  /\ checkTrailingWhitespace [[86; 61; 9; 118; 194; 160; 32; 9]%N] = Ok [[86; 61; 9; 118; 194; 160]%N].
+Proof. split; vm_compute; reflexivity. Qed.
 
 (* ===== VaralignBlock: every fix, continuation lines included, all inputs ===== *)
 
@@ -110,6 +136,32 @@ Theorem C15_shell_blanks_only : forall flag raws raws',
 Proof. exact shell_blanks_only. Qed.
 Print Assumptions C15_shell_blanks_only.
 
+(* round 4: totality (no Go panic) and the exact result of the compact fixers *)
+
+(* CheckTrailingWhitespace never panics on a logical line (>= 1 raw line) and removes exactly the
+   maximal suffix of spaces and tabs of the last raw line *)
+Theorem C15_trailing_exact : forall raws, raws <> [] ->
+  exists init last, raws = init ++ [last] /\
+    checkTrailingWhitespace raws = Ok (init ++ [rtrimHspace last]).
+Proof. exact checkTrailingWhitespace_spec. Qed.
+Print Assumptions C15_trailing_exact.
+
+(* checkDirectiveIndentation never panics for a depth >= 0 (strings.Repeat, ReplaceAt's assertions) *)
+Theorem C15_directive_total : forall sn raw0 ind d, 0 <= d ->
+  exists r, checkDirectiveIndentation sn raw0 ind d = Ok r.
+Proof. exact directive_total. Qed.
+Print Assumptions C15_directive_total.
+
+(* the tab normalisation of checkShellCommand never panics when the first raw line starts with two tabs;
+   the guard is needed: with a single tab ReplaceAt's assert(from != to) fails *)
+Theorem C15_shell_total : forall r0 rs, has_prefix [TAB; TAB] r0 = true ->
+  exists raws', shellTabs true (r0 :: rs) = Ok raws'.
+Proof. exact shell_total. Qed.
+Print Assumptions C15_shell_total.
+
+Example C15_shell_needs_two_tabs : shellTabs true [[9; 120]%N] = Panic.
+Proof. vm_compute. reflexivity. Qed.
+
 (* fixSpaceAfterVarname (as of /repo 42e6bf1 the leading comment marker is kept) *)
 Theorem C15_spaceAfterVarname_blanks_only : forall raws vn sp op p0 raws',
   blankb (sbv p0) = true -> blankb sp = true -> vo p0 = vn ++ sp ++ op ->
@@ -159,6 +211,23 @@ Theorem C15_no_widen_72_partial : forall para para',
   Forall2 (fun p p' => sbv p <> [] -> sav p = [] -> line_width p <= 72 -> line_width p' <= 72) para para'.
 Proof. exact no_widen_72_partial. Qed.
 Print Assumptions C15_no_widen_72_partial.
+
+(* round 4: the same under the guard the code itself evaluates -- the line fits into 72 columns with
+   its present separator, or with a single space if the value is attached to the operator
+   (width_with_room p = tabWidthSlice(leadingComment, varnameOp, oldSpace == "" ? " " : oldSpace, value)).
+   This covers attached values too; what remains outside is exactly the refuting class
+   (attached value and not even one space fits). *)
+Theorem C15_no_widen_72_room : forall para para',
+  Forall single_ok para -> para <> [] -> realign_lines para = Ok para' ->
+  Forall2 (fun p p' => sav p = [] -> width_with_room p <= 72 -> line_width p' <= 72) para para'.
+Proof. exact no_widen_72_room. Qed.
+Print Assumptions C15_no_widen_72_room.
+
+(* it subsumes C15_no_widen_72_partial: a separated line that fits has room *)
+Theorem C15_room_of_separated : forall p, sbv p <> [] -> sav p = [] -> cont p = [] ->
+  line_width p <= 72 -> width_with_room p <= 72.
+Proof. exact room_of_separated. Qed.
+Print Assumptions C15_room_of_separated.
 
 (* and no line gets wider at all if the common column is not to the right of its value column *)
 Theorem C15_no_widen_not_shifted : forall para para',
